@@ -4,6 +4,41 @@ import json, os, subprocess
 HERE = os.path.dirname(os.path.dirname(os.path.abspath(__file__)))
 
 CLAIMED = {
+ "C07": dict(
+   technique="metamorphic property testing over break schedules: generated programs x exhaustive/random subsets of turn boundaries x generated inspection statements, interrupted run compared with the uninterrupted run of the same implementation",
+   text="For generated programs with INPUT/STOP and reply scripts, the run interrupted by host breaks at a chosen subset of turn boundaries (all subsets for runs of <= 7 calls), with side-effect-free inspection statements executed at each breakpoint (including failing ones and failing user-function calls) and resumed with CONT, must produce the same prints, notices, consumed replies and final outcome as the uninterrupted run. A second family checks that an assignment entered at a STOP equals the same assignment written in place of the STOP.",
+   note="Implementation compared with itself; inspection statements are restricted by construction (snapshot hook) to ones that cannot create arrays or advance RND; runs bounded by 400 calls.",
+   design="4/C07"),
+ "C08": dict(
+   technique="model-based lockstep testing (reference interpreter vs implementation at every input request) plus a metamorphic INPUT==assignment relation, over generated programs and reply scripts",
+   text="Implementation and reference interpreter are advanced in lockstep over generated programs with INPUT in every syntactic position and replies from the documented reply grammar; at each input request the output so far, the REENTER / EXTRA IGNORED notices, the await-input state and finally the outcome and scalar values must agree. Independently of the model, replacing each once-executed INPUT by an assignment of the accepted item must not change output, outcome or final scalars.",
+   note="Trusts model.rs (incl. its 40-line reply parser) for the lockstep family; the metamorphic family compares the implementation with itself.",
+   design="4/C08"),
+ "C09": dict(
+   technique="property testing with per-call invariants over generated (also non-terminating) programs: trace/print record counts per host call, break-in at generated points, statement count against the reference interpreter, hook-measured token reads per call",
+   text="Every executing host call of a traced run may emit trace records for one line only and at most 1 + (IFs on that line) of them, at most one print and one notice; a generated break-in must idle the interpreter with a BREAK notice naming a program line and CONT must resume; finished runs need at least as many calls as the reference interpreter executed top-level statements; for DEF-free programs token-cursor reads per call are bounded linearly in the current line's token count (hook counter, factor 12, observed maximum 5.1).",
+   note="The work bound is decided for token-cursor reads, not time; the constant is calibrated on the unchanged tree.",
+   design="4/C09"),
+ "C10": dict(
+   technique="metamorphic / differential stateful testing: generated session histories before RUN, used interpreter vs fresh interpreter with the same program, seed and flags",
+   text="After a generated history (earlier runs left completed / failed / broken / awaiting input / replied-to-then-broken, immediate assignments, DIMs, open loops, GOSUBs into the program, partial READs, function calls, TRACE toggles, failing lines) the final RUN must produce the identical event sequence, outcome, state snapshot and variable/cell probes as a fresh interpreter holding the same lines.",
+   note="Both sides are seeded alike before the final RUN; bounded by 600 calls.",
+   design="4/C10"),
+ "C11": dict(
+   technique="stateful property testing: generated suspension points x edits x probes with fixed expectations after successful edits and a twin-session differential after rejected edits",
+   text="Programs are suspended at generated points (inside loops, subroutines, after partial READs, at STOP, idle after finishing), then edited (add / replace / delete / rejected edit) and probed (CONT, RETURN, NEXT, READ, function call, variable probes, GOTO). After a successful edit the stated errors / first DATA item of the edited program / vanished function / unchanged variables are required; after a rejected edit the probe must behave exactly as in an identically suspended session without the edit attempt.",
+   note="The first DATA item of the edited program is computed from the generated AST.",
+   design="4/C11"),
+ "C16": dict(
+   technique="invariant checking over generated sessions (snapshot hook after every host call) plus an exhaustive list of cap-boundary scripts with exact expectations",
+   text="After every host call of generated sessions (ill-typed writes through every path, C01's structured and hostile sessions) the snapshot must show <= 32 frames, <= 32 open loops over distinct variables, arrays whose cell count equals the product of their dimensions and is <= 10000, and name-suffix typing of every scalar, array and parameter binding. Cap-boundary scripts (GOSUB depth 31/32/33, 32/33 nested FORs, re-entered and abandoned loops thousands of times, DIM products 9999/10000/10001, 4+-subscript implicit arrays) must report OUT OF MEMORY exactly beyond the cap and leave the interpreter usable.",
+   note="Observation through the read-only snapshot hook.",
+   design="4/C16"),
+ "C17": dict(
+   technique="metamorphic testing over the four option configurations (+ TRACE/NOTRACE commands, also typed at a breakpoint) and model-based comparison of the trace and warning records",
+   text="Each generated program is run 7 times (4 configurations via fields, TRACE typed before RUN, TRACE and NOTRACE typed mid-run at a breakpoint); with trace/warning records removed the event sequence, outcome and final state must be identical, disabled options must emit nothing, immediate lines must not be traced; in the fully enabled run the collapsed trace sequence and the ordered (warning text, line) list must equal the reference interpreter's.",
+   note="Trusts model.rs for when a warning is due; runaway DEF recursions are compared on prefixes (where OUT OF MEMORY strikes is unspecified).",
+   design="4/C17"),
  "C01": dict(
    technique="stateful property testing / fuzzing: generated host-call histories (proptest, shrinking) through a protocol-respecting driver with crash, idle-after-error, caret-rendering and liveness oracles; child-process battery for native-stack exhaustion; libFuzzer target in the thorough tier",
    text="Generated sessions (structured programs + command scripts, hostile boundary lines, raw Unicode) are driven through the real Interpreter under the turn-taking protocol; every call must return (catch_unwind), every Err must leave the interpreter Idle with a renderable error, breaks and replies must produce the documented states, and a final PRINT 7 must work. Boundary numerals (line 2^64-1, subscripts near 2^32/2^63, 19-40 subscripts, seeds >= 2^44) are enumerated exhaustively in fixed scripts; 10 nesting constructs up to 300000 levels deep are run in child processes on an 8 MiB stack for both the interpreter and the analyzer.",
